@@ -1638,13 +1638,15 @@ def run_c12(ctx):
     # one TRANSIENT write failure (model-free; the logic is StdioModel.v / StdioFacts.v): the size limit makes one write
     # of stdio's fail, then it is lifted: every later write, the flush, the fsync and the close succeed - the call must
     # still report an I/O failure; without a failure it must succeed with exactly the text of config_write
-    if rc is None and not res.violations:
+    if rc is None:
         runner = ctx.runner("asan")
-        ntr = 0
+        ntr = ntr_bad = 0
         for nset in (400, 1500):
             text = b"".join(b"s%05d = \"%s\";\n" % (i, b"x" * (i % 37)) for i in range(nset))
             for fs_opt in (0, 1):
                 for cap in (1, 4096, 8192, 4096 * 3, 10 ** 9):
+                    if ntr_bad >= 2:
+                        break
                     script = "\n".join(["init", "reads %s" % hx(text), "option 64 %d" % fs_opt, "write",
                                         "writeft %s %d" % (hx(b"tr.cfg"), cap), "dump", "fs cat %s" % hx(b"tr.cfg")]) + "\n"
                     out, status, err = runner.run_impl(script)
@@ -1672,9 +1674,9 @@ def run_c12(ctx):
                     except (StopIteration, IndexError, ValueError):
                         bad.append("unexpected transcript: %s" % lines[-5:])
                     if bad:
+                        ntr_bad += 1
                         res.violations.append(dict(name="transient_%d" % ntr, replay=(
-                            "# property C12 -- %s\n# (harness op writeft: one transient write failure)\n%s" % (bad[0], script[:300] + "...\n"))))
-                        break
+                            "# property C12 -- %s\n# (harness op writeft: one transient write failure)\n%s" % (bad[0], script))))
         res.distribution["transient_write_failures"] = ntr
     return res
 
